@@ -21,6 +21,7 @@ from .builtin.tags.comment_tag import CommentNode
 from .builtin.tags.doc_tag import DocNode
 from .context import FutureContext
 from .context import RenderContext
+from .exceptions import ContextDepthError
 from .exceptions import LiquidError
 from .exceptions import LiquidInterrupt
 from .exceptions import LiquidSyntaxError
@@ -174,6 +175,10 @@ class BoundTemplate:
                         raise
                 except StopRender:
                     break
+                except ContextDepthError:
+                    # Never just reported, whatever the mode. A template that calls
+                    # itself twice would carry on with its second call at every level.
+                    raise
                 except LiquidError as err:
                     # Raise or warn according to the current mode.
                     self.env.error(err, token=node.token)
@@ -209,6 +214,10 @@ class BoundTemplate:
                         raise
                 except StopRender:
                     break
+                except ContextDepthError:
+                    # Never just reported, whatever the mode. A template that calls
+                    # itself twice would carry on with its second call at every level.
+                    raise
                 except LiquidError as err:
                     # Raise or warn according to the current mode.
                     self.env.error(err, token=node.token)
